@@ -98,6 +98,8 @@ func C06(p *load.Prog, r *oblig.Run) {
 	r.Rule("R06.f", "the result is a relation the documentation diagram allows for that ordering of endpoints", 26)
 	r.Rule("R06.g", "NewDateRange normalises its ends: the start is marked not-end-of-range and the end end-of-range whatever the caller passed (the model's assumption about range ends)", 2)
 	c06Normalise(p, r)
+	// the projection of dates onto instants must not single out the zero time (C05's rule): 1 Jan 0001 is a valid boundary
+	c05ZeroTime(p, r)
 
 	pk := p.ByPath[load.PkgRoot]
 	// constants by exported API name
